@@ -23,3 +23,30 @@ mod verif_kani {
         }
     }
 }
+
+
+#[cfg(kani)]
+mod verif_kani2 {
+    use super::*;
+    #[kani::proof]
+    #[kani::unwind(10)]
+    fn width_one_char() {
+        let c: char = kani::any();
+        let mut buf = [0u8; 4];
+        let s: &str = c.encode_utf8(&mut buf);
+        assert!(TextEncoding::Utf8CodeUnit.width(s) == c.len_utf8());
+        assert!(TextEncoding::Utf16CodeUnit.width(s) == c.len_utf16());
+        assert!(TextEncoding::UnicodeCodePoint.width(s) == 1);
+    }
+    #[kani::proof]
+    #[kani::unwind(12)]
+    fn width_two_chars_additive() {
+        let c1: char = kani::any();
+        let c2: char = kani::any();
+        let mut s = String::new();
+        s.push(c1); s.push(c2);
+        assert!(TextEncoding::Utf8CodeUnit.width(&s) == c1.len_utf8() + c2.len_utf8());
+        assert!(TextEncoding::Utf16CodeUnit.width(&s) == c1.len_utf16() + c2.len_utf16());
+        assert!(TextEncoding::UnicodeCodePoint.width(&s) == 2);
+    }
+}
